@@ -102,4 +102,19 @@ SortedSeq(S) == IF S = {} THEN << >>
                      IN  <<m>> \o SortedSeq(S \ {m})
 
 Range(s) == {s[i] : i \in DOMAIN s}
+
+\* integer square root by bisection (values up to 2^31 - 1)
+RECURSIVE ISqrtBis(_, _, _)
+ISqrtBis(n, lo, hi) == IF lo >= hi THEN lo
+                       ELSE LET mid == (lo + hi + 1) \div 2
+                            IN  IF mid * mid <= n THEN ISqrtBis(n, mid, hi) ELSE ISqrtBis(n, lo, mid - 1)
+ISqrt2(n) == ISqrtBis(n, 0, Min2(n, 46340))
+
+\* b^e for small non-negative e
+RECURSIVE IPow(_, _)
+IPow(b, e) == IF e = 0 THEN 1 ELSE b * IPow(b, e - 1)
+
+\* minimum / maximum of a non-empty finite set of integers
+SetMin(S) == CHOOSE x \in S : \A y \in S : x <= y
+SetMax(S) == CHOOSE x \in S : \A y \in S : y <= x
 =============================================================================
